@@ -2,3 +2,4 @@ import NTV.Proofs.C11
 #print axioms NTV.C11.hensel_step_algebra
 #print axioms NTV.C11.henselLift_full
 #print axioms NTV.C11.exponent_one_unchanged
+#print axioms NTV.C11.division_contract
